@@ -22,7 +22,7 @@ EXTENDS Naturals, Sequences, FiniteSets, TLC, Bytes, HostileBody
 DomainChars == (32..126) \cup (128..255)
 InDomain(s) == \A i \in 1..Len(s) : s[i] \in DomainChars
 
-Families == <<"options", "ctype", "cond", "auth", "cookie", "url", "range", "date", "body">>
+Families == <<"options", "ctype", "cond", "auth", "cookie", "url", "range", "date", "body", "accept">>
 
 Tok_options == <<
   <<97>>,   \*  1  a
@@ -339,12 +339,54 @@ DateOddDays == {<<48, 48, 32, 74, 97, 110>>, <<51, 50, 32, 74, 97, 110>>, <<50, 
 DateOddTimes == {<<50, 52, 58, 48, 48, 58, 48, 48>>, <<50, 51, 58, 53, 57, 58, 54, 48>>, <<50, 51, 58, 54, 48, 58, 48, 48>>, <<48, 48, 58, 48, 48>>, <<48, 48, 58, 48, 48, 58, 48, 48, 46, 53>>, <<57, 57, 58, 57, 57, 58, 57, 57>>, <<45, 49, 58, 48, 48, 58, 48, 48>>, <<48, 48, 58, 48, 48, 58, 45, 49>>}   \* 24:00:00 | 23:59:60 | 23:60:00 | 00:00 | 00:00:00.5 | 99:99:99 | -1:00:00 | 00:00:-1
 DateZones == {<<>>, <<32, 71, 77, 84>>, <<32, 85, 84>>, <<32, 90>>, <<32, 69, 83, 84>>, <<32, 69, 68, 84>>, <<32, 80, 83, 84>>, <<32, 65>>, <<32, 43, 48, 48, 48, 48>>, <<32, 45, 48, 48, 48, 48>>, <<32, 43, 48, 48, 48, 49>>, <<32, 45, 48, 48, 48, 49>>, <<32, 43, 49, 52, 48, 48>>, <<32, 45, 49, 50, 48, 48>>, <<32, 43, 50, 51, 53, 57>>, <<32, 45, 50, 51, 53, 57>>, <<32, 43, 50, 52, 48, 48>>, <<32, 45, 50, 52, 48, 48>>, <<32, 43, 57, 57, 53, 57>>, <<32, 48, 48, 48, 48>>, <<32, 43, 48, 48, 58, 48, 49>>}   \* (empty) | SPGMT | SPUT | SPZ | SPEST | SPEDT | SPPST | SPA | SP+0000 | SP-0000 | SP+0001 | SP-0001 | SP+1400 | SP-1200 | SP+2359 | SP-2359 | SP+2400 | SP-2400 | SP+9959 | SP0000 | SP+00:01
 
+Tok_accept == <<
+  <<101, 110, 45, 85, 83>>,   \*  1  en-US
+  <<59, 113, 61, 48>>,   \*  2  ;q=0
+  <<44>>,   \*  3  ,
+  <<101, 110>>,   \*  4  en
+  <<100, 101>>,   \*  5  de
+  <<32>>,   \*  6  SP
+  <<59, 113, 61, 48, 46, 48>>,   \*  7  ;q=0.0
+  <<100, 101, 45, 65, 84>>,   \*  8  de-AT
+  <<42>>,   \*  9  *
+  <<59, 113, 61, 48, 46, 48, 48, 48>>,   \* 10  ;q=0.000
+  <<59, 113, 61, 48, 46, 53>>,   \* 11  ;q=0.5
+  <<101, 110, 95, 103, 98>>,   \* 12  en_gb
+  <<122, 104, 45, 72, 97, 110, 115, 45, 67, 78>>,   \* 13  zh-Hans-CN
+  <<59, 113, 61, 49>>,   \* 14  ;q=1
+  <<59>>,   \* 15  ;
+  <<113, 61>>,   \* 16  q=
+  <<116, 101, 120, 116, 47, 104, 116, 109, 108>>,   \* 17  text/html
+  <<116, 101, 120, 116, 47, 42>>,   \* 18  text/*
+  <<42, 47, 42>>,   \* 19  */*
+  <<117, 116, 102, 45, 56>>,   \* 20  utf-8
+  <<108, 97, 116, 105, 110, 49>>,   \* 21  latin1
+  <<103, 122, 105, 112>>,   \* 22  gzip
+  <<45>>,   \* 23  -
+  <<95>>,   \* 24  _
+  <<85, 83>>,   \* 25  US
+  <<59, 108, 101, 118, 101, 108, 61, 49>>,   \* 26  ;level=1
+  <<233>>,   \* 27  \xE9
+  <<59, 113, 61, 48, 46, 48, 48, 49>>,   \* 28  ;q=0.001
+  <<59, 113, 61, 45, 48>>,   \* 29  ;q=-0
+  <<59, 113, 61, 48, 48>>    \* 30  ;q=00
+>>
+Ctx_accept == <<
+  <<<<>>, <<>>>>,   \*  _ 
+  <<<<101, 110, 45>>, <<59, 113, 61, 48, 44, 32, 101, 110>>>>,   \* en- _ ;q=0,SPen
+  <<<<101, 110, 45, 85, 83, 59, 113, 61, 48>>, <<44, 32, 101, 110>>>>,   \* en-US;q=0 _ ,SPen
+  <<<<101, 110, 45, 85, 83, 59, 113, 61>>, <<44, 32, 100, 101>>>>,   \* en-US;q= _ ,SPde
+  <<<<116, 101, 120, 116, 47>>, <<59, 113, 61, 48, 44, 32, 116, 101, 120, 116, 47, 42>>>>    \* text/ _ ;q=0,SPtext/*
+>>
+
 Toks(fam) == CASE fam = "options" -> Tok_options [] fam = "ctype" -> Tok_ctype [] fam = "cond" -> Tok_cond
                [] fam = "auth" -> Tok_auth [] fam = "cookie" -> Tok_cookie [] fam = "url" -> Tok_url
                [] fam = "range" -> Tok_range [] fam = "date" -> Tok_date [] fam = "body" -> Tok_body
+               [] fam = "accept" -> Tok_accept
 Ctxs(fam) == CASE fam = "options" -> Ctx_options [] fam = "ctype" -> Ctx_ctype [] fam = "cond" -> Ctx_cond
                [] fam = "auth" -> Ctx_auth [] fam = "cookie" -> Ctx_cookie [] fam = "url" -> Ctx_url
                [] fam = "range" -> Ctx_range [] fam = "date" -> Ctx_date [] fam = "body" -> Ctx_body
+               [] fam = "accept" -> Ctx_accept
 
 \* text of a sequence of token indices
 RECURSIVE TextOf(_, _)
@@ -399,16 +441,31 @@ DateTexts ==
   \cup {T_wkday \o d \o T_sp \o <<50, 48, 50, 52>> \o T_sp \o <<48, 48, 58, 48, 48, 58, 48, 48>> \o z : d \in DateOddDays, z \in DateZones}
   \cup {T_wkday \o <<48, 49, 32, 74, 97, 110>> \o T_sp \o y \o T_sp \o t \o z : t \in DateOddTimes, y \in {<<48, 48, 48, 49>>, <<57, 57, 57, 57>>}, z \in DateZones}
 
+\* Accept grammar: lists of one or two elements `range[;q=..]`; the q set contains every spelling of a refusal,
+\* the range sets contain a tag, its regional variants, its primary tag / generalisations and aliases
+AccLangTags == {<<101, 110>>, <<101, 110, 45, 85, 83>>, <<101, 110, 95, 103, 98>>, <<100, 101>>, <<100, 101, 45, 65, 84>>, <<42>>}   \* en | en-US | en_gb | de | de-AT | *
+AccLangQ == {<<>>, <<59, 113, 61, 48>>, <<59, 113, 61, 48, 46, 48>>, <<59, 113, 61, 48, 46, 48, 48, 48>>, <<59, 113, 61, 48, 46, 53>>}   \* (none) | ;q=0 | ;q=0.0 | ;q=0.000 | ;q=0.5
+AccMimeTags == {<<116, 101, 120, 116, 47, 104, 116, 109, 108>>, <<116, 101, 120, 116, 47, 42>>, <<42, 47, 42>>, <<97, 112, 112, 108, 105, 99, 97, 116, 105, 111, 110, 47, 106, 115, 111, 110>>, <<116, 101, 120, 116, 47, 104, 116, 109, 108, 59, 108, 101, 118, 101, 108, 61, 49>>}   \* text/html | text/* | */* | application/json | text/html;level=1
+AccQ == {<<>>, <<59, 113, 61, 48>>, <<59, 113, 61, 48, 46, 53>>}   \* (none) | ;q=0 | ;q=0.5
+AccCharsetTags == {<<117, 116, 102, 45, 56>>, <<117, 116, 102, 56>>, <<108, 97, 116, 105, 110, 49>>, <<105, 115, 111, 45, 56, 56, 53, 57, 45, 49>>, <<42>>}   \* utf-8 | utf8 | latin1 | iso-8859-1 | *
+AccEncTags == {<<103, 122, 105, 112>>, <<98, 114>>, <<105, 100, 101, 110, 116, 105, 116, 121>>, <<42>>}   \* gzip | br | identity | *
+T_commaSp == <<44, 32>>
+AccElems(tags, qs) == {t \o q : t \in tags, q \in qs}
+AccLists(E) == E \cup {a \o T_comma \o b : a \in E, b \in E}
+AcceptTexts == AccLists(AccElems(AccLangTags, AccLangQ)) \cup AccLists(AccElems(AccMimeTags, AccQ))
+          \cup AccLists(AccElems(AccCharsetTags, AccQ)) \cup AccLists(AccElems(AccEncTags, AccQ))
+          \cup {a \o T_commaSp \o b \o T_commaSp \o c : a \in AccElems({<<101, 110, 45, 85, 83>>}, AccLangQ), b \in AccElems({<<101, 110>>, <<100, 101>>}, {<<>>, <<59, 113, 61, 48>>}), c \in AccElems({<<100, 101, 45, 65, 84>>, <<42>>}, {<<>>, <<59, 113, 61, 48>>})}
+
 GramTexts(fam) == CASE fam = "range" -> RangeTexts \cup ContentRangeTexts
                     [] fam = "date" -> DateTexts
+                    [] fam = "accept" -> AcceptTexts
                     [] fam = "body" -> BodyCTypeTexts      \* HostileBody: CONTENT_TYPE grammar of the body family
                     [] OTHER -> {}
 
 \* which pure functions and which environ slots of a Request a family is fed to
 FamFns(fam) ==
   CASE fam = "options" -> <<"parse_options_header", "parse_list_header", "parse_dict_header", "parse_set_header",
-                            "parse_accept_header", "parse_accept_header[MIMEAccept]", "parse_accept_header[LanguageAccept]",
-                            "parse_accept_header[CharsetAccept]", "parse_cache_control_header",
+                            "parse_accept_header", "parse_accept_header[MIMEAccept]", "parse_cache_control_header",
                             "parse_cache_control_header[ResponseCacheControl]", "parse_csp_header", "unquote_header_value">>
     [] fam = "ctype"   -> <<"parse_options_header", "parse_dict_header">>
     [] fam = "cond"    -> <<"parse_etags", "parse_range_header", "parse_content_range_header", "parse_if_range_header",
@@ -419,6 +476,8 @@ FamFns(fam) ==
     [] fam = "range"   -> <<"parse_range_header", "parse_content_range_header", "parse_if_range_header", "parse_age">>
     [] fam = "date"    -> <<"parse_date", "parse_if_range_header">>
     [] fam = "body"    -> <<"parse_options_header">>
+    [] fam = "accept"  -> <<"parse_accept_header", "parse_accept_header[MIMEAccept]", "parse_accept_header[LanguageAccept]",
+                            "parse_accept_header[CharsetAccept]">>
 FamSlots(fam) ==
   CASE fam = "options" -> <<"ACCEPT", "ACCEPT_CHARSET", "ACCEPT_ENCODING", "ACCEPT_LANGUAGE", "CACHE_CONTROL", "PRAGMA",
                             "ACR_HEADERS", "ALL_HEADERS">>
@@ -431,6 +490,7 @@ FamSlots(fam) ==
                             "ACR_METHOD", "CONTENT_ENCODING", "CONTENT_MD5", "ALL_HEADERS">>
     [] fam = "range"   -> <<"RANGE", "IF_RANGE", "CONTENT_LENGTH", "MAX_FORWARDS">>
     [] fam = "date"    -> <<"IF_MODIFIED_SINCE", "IF_UNMODIFIED_SINCE", "IF_RANGE", "DATE">>
+    [] fam = "accept"  -> <<"ACCEPT", "ACCEPT_CHARSET", "ACCEPT_ENCODING", "ACCEPT_LANGUAGE">>
     [] fam = "body"    -> <<>>   \* the body family's texts are the CONTENT_TYPE of function "RequestBody" (see BodySlots)
 Slots == {"HOST", "COOKIE", "AUTHORIZATION", "ACCEPT", "ACCEPT_CHARSET", "ACCEPT_ENCODING", "ACCEPT_LANGUAGE", "CACHE_CONTROL",
           "PRAGMA", "IF_MATCH", "IF_NONE_MATCH", "IF_MODIFIED_SINCE", "IF_UNMODIFIED_SINCE", "IF_RANGE", "RANGE", "DATE",
@@ -455,11 +515,23 @@ QItem == {"tuple[str,int]", "tuple[str,float]"}
 StrMap == {"str:str"}
 OptMap == {"str:str", "str:NoneType"}
 
+(* Offers derived from the header under test (recorder rule, harness/hostile.py derive_offers): every range of the  *)
+(* text, its primary tag, regional variants x-YY / x_yy, for MIME its type/* and */* generalisations, charset aliases, *)
+(* and one unrelated offer (invalid mimetype offers are left out: they are a documented ValueError for the developer).  *)
+(* Positions: membership and quality of each offer; best_match of every singleton, every ordered pair and the full     *)
+(* list, and with a default.                                                                                           *)
+DerivedUses ==
+  << C("derived.contains", TRUE, {"list"}, {"bool"}), C("derived.quality", TRUE, {"list"}, {"int", "float"}),
+     C("derived.best_match_singletons", TRUE, {"list"}, OptStr), C("derived.best_match_pairs", TRUE, {"list"}, OptStr),
+     V("derived.best_match_full", TRUE, OptStr), C("derived.best_match_default", TRUE, {"list"}, {"str"}) >>
+DerivedAll(n) == C(n, TRUE, {"list"}, {"bool", "int", "float", "str", None})
+
 AcceptUses ==
   << C("iter", TRUE, {"list"}, QItem), C("contains", TRUE, {"list"}, {"bool"}), C("quality", TRUE, {"list"}, {"int", "float"}),
      C("getitem", TRUE, {"list"}, {"int", "float"} \cup QItem), C("find", TRUE, {"list"}, {"int"}),
      V("best_match", TRUE, OptStr), V("best_match_default", TRUE, {"str"}), V("best", TRUE, OptStr),
-     C("values", TRUE, {"list"}, {"str"}), V("to_header", FALSE, {"str"}), V("str", FALSE, {"str"}) >>
+     C("values", TRUE, {"list"}, {"str"}), V("to_header", FALSE, {"str"}), V("str", FALSE, {"str"}) >> \o DerivedUses
+
 
 AuthUses ==
   << V("type", TRUE, {"str"}), V("token", TRUE, OptStr) >>
@@ -482,10 +554,10 @@ RequestPositions ==
      C("mimetype_params", TRUE, {"dict"}, StrMap), V("is_json", TRUE, {"bool"}),
      V("pragma", TRUE, {"HeaderSet"}), V("pragma.to_header", FALSE, {"str"}),
      C("accept_mimetypes", TRUE, {"MIMEAccept"}, QItem), V("accept_mimetypes.best_match", TRUE, OptStr),
-     V("accept_mimetypes.to_header", FALSE, {"str"}),
-     C("accept_charsets", TRUE, {"CharsetAccept"}, QItem), V("accept_charsets.best_match", TRUE, OptStr),
-     C("accept_encodings", TRUE, {"Accept"}, QItem), V("accept_encodings.best_match", TRUE, OptStr),
-     C("accept_languages", TRUE, {"LanguageAccept"}, QItem), V("accept_languages.best_match", TRUE, OptStr),
+     V("accept_mimetypes.to_header", FALSE, {"str"}), DerivedAll("accept_mimetypes.derived"),
+     C("accept_charsets", TRUE, {"CharsetAccept"}, QItem), V("accept_charsets.best_match", TRUE, OptStr), DerivedAll("accept_charsets.derived"),
+     C("accept_encodings", TRUE, {"Accept"}, QItem), V("accept_encodings.best_match", TRUE, OptStr), DerivedAll("accept_encodings.derived"),
+     C("accept_languages", TRUE, {"LanguageAccept"}, QItem), V("accept_languages.best_match", TRUE, OptStr), DerivedAll("accept_languages.derived"),
      C("cache_control", TRUE, {"RequestCacheControl"}, OptMap), V("cache_control.max_age", TRUE, OptInt),
      V("cache_control.max_stale", TRUE, {"int", "bool", None}),
      V("if_match", TRUE, {"ETags"}), V("if_match.to_header", FALSE, {"str"}),
